@@ -3,6 +3,7 @@
    _SerializableDesignerPolicyBase.suggest (kept rqs = the policy state is carried over or restored: dump/load keep
    the incorporated-id set). *)
 From VZ Require Import Base.Prelude Model.TrialCache Proofs.TrialCacheP.
+From VZ Require Model.TrialCacheIR Gen.TrialCacheSrc Proofs.TrialCacheSrcP.
 
 (* guard: ids are unique and <= max_trial_id at every request, and max_trial_id never decreases (hist_ok) *)
 Theorem C12_exactly_once_partial : forall rqs, hist_ok 0 rqs ->
@@ -63,3 +64,19 @@ Proof.
   - split; [lia|]. split; [split; [nodup_nat|]|exact I].
     intros t Hin; simpl in Hin; repeat (destruct Hin as [<-|Hin]; [simpl; lia|]); destruct Hin.
 Qed.
+
+(* THE LOADER IS THE SOURCE.  Gen/TrialCacheSrc.v is regenerated at every run from trial_caches.py: the guard, the set
+   expressions (which ids are asked for, what is added to the incorporated set), the status filter of
+   get_newly_completed_trials, and what dump / load / clear do with the set.  Their meaning is the function `newly` all
+   theorems above are about; a restart (dump, fresh object, load) keeps the set, and an unreadable dump is a harmless decode
+   error after which the policy starts over (C12_lost_state_gets_all). *)
+Theorem C12_source_loader_is_the_model : forall inc maxid trials,
+  TrialCacheIR.newly_of TrialCacheSrc.src_newly inc maxid trials = newly inc maxid trials.
+Proof. exact TrialCacheSrcP.src_newly_is_newly. Qed.
+Print Assumptions C12_source_loader_is_the_model.
+
+Theorem C12_source_restart_keeps_the_cache :
+  (forall inc, TrialCacheIR.reload TrialCacheSrc.src_dump TrialCacheSrc.src_load inc = inc) /\
+  TrialCacheSrc.src_load = TrialCacheIR.LoadSetOfList true true /\ TrialCacheSrc.src_clear = TrialCacheIR.ClearToEmptySet.
+Proof. repeat split. Qed.
+Print Assumptions C12_source_restart_keeps_the_cache.
